@@ -91,6 +91,9 @@ type arena struct {
 	verdicts []verdict
 	point    string
 	kind     string
+	// propEdit, if set, rewrites M's next sub-channel proposal on her link
+	propEdit  func(p *client.SubChannelProposalMsg)
+	craftedFA channel.Balances
 }
 
 type verdict struct {
@@ -477,6 +480,20 @@ func (a *arena) rewriteNext(edit func(orig *channel.State) *channel.State) func(
 	fired := false
 	parent := a.chM.ID()
 	a.w.Bus.SetRewriter(a.M.Wire, func(e *wire.Envelope) []*wire.Envelope {
+		if sp, isProp := e.Msg.(*client.SubChannelProposalMsg); isProp {
+			a.mu.Lock()
+			pe := a.propEdit
+			a.mu.Unlock()
+			if pe != nil {
+				c := *sp
+				ib := sp.InitBals.Clone()
+				c.InitBals = &ib
+				c.FundingAgreement = sp.FundingAgreement.Clone()
+				pe(&c)
+				return []*wire.Envelope{{Sender: e.Sender, Recipient: e.Recipient, Msg: &c}}
+			}
+			return []*wire.Envelope{e}
+		}
 		u, ok := e.Msg.(*client.ChannelUpdateMsg)
 		mu.Lock()
 		defer mu.Unlock()
@@ -514,6 +531,11 @@ var fundEdits = []fundEdit{
 			orig.Balances[ai][1] = new(big.Int).Sub(cur.Balances[ai][1], bal(tot))
 		}
 		return orig
+	}},
+	{"debit-by-a-crafted-funding-agreement", func(rng *rand.Rand, cur, orig *channel.State, init [][]int64) *channel.State {
+		// handled in history(): the proposal's funding agreement field (unused for sub-channels) was
+		// rewritten to shift the funding towards the victim; the funding update debits accordingly
+		return nil
 	}},
 	{"debits-swapped", func(rng *rand.Rand, cur, orig *channel.State, init [][]int64) *channel.State {
 		changed := false
@@ -581,7 +603,9 @@ type settleEdit struct {
 }
 
 var settleEdits = []settleEdit{
-	{"control-honest-settlement", func(rng *rand.Rand, cur, orig *channel.State, fin, pre, snap *channel.State) *channel.State { return orig }},
+	{"control-honest-settlement", func(rng *rand.Rand, cur, orig *channel.State, fin, pre, snap *channel.State) *channel.State {
+		return orig
+	}},
 	{"everything-credited-to-the-sender", func(rng *rand.Rand, cur, orig *channel.State, fin, pre, snap *channel.State) *channel.State {
 		changed := false
 		for ai := range orig.Balances {
@@ -823,10 +847,49 @@ func history(s sink.Sink, em *childrun.Emitter, rng *rand.Rand, sample bool) int
 		a.setCase(point, fe.name)
 		em.Progress(point + " " + fe.name)
 		applied := false
+		crafted := fe.name == "debit-by-a-crafted-funding-agreement"
+		if crafted {
+			a.mu.Lock()
+			a.propEdit = func(p *client.SubChannelProposalMsg) {
+				fa := p.InitBals.Balances.Clone()
+				for ai := range fa {
+					// everything the sub-channel holds is to come from the victim (participant 1)
+					tot := new(big.Int).Add(fa[ai][0], fa[ai][1])
+					if cur.Balances[ai][1].Cmp(tot) >= 0 {
+						fa[ai][0], fa[ai][1] = bal(0), tot
+					}
+				}
+				p.FundingAgreement = fa
+				a.craftedFA = fa
+			}
+			a.mu.Unlock()
+		}
 		fired := a.rewriteNext(func(orig *channel.State) *channel.State {
 			var out *channel.State
 			func() {
 				defer func() { _ = recover() }()
+				if crafted {
+					a.mu.Lock()
+					fa := a.craftedFA
+					a.mu.Unlock()
+					if fa == nil {
+						return
+					}
+					changed := false
+					for ai := range orig.Balances {
+						for p := 0; p < 2; p++ {
+							nb := new(big.Int).Sub(cur.Balances[ai][p], fa[ai][p])
+							if nb.Cmp(orig.Balances[ai][p]) != 0 {
+								changed = true
+							}
+							orig.Balances[ai][p] = nb
+						}
+					}
+					if changed {
+						out = orig
+					}
+					return
+				}
 				out = fe.edit(rng, cur, orig, init)
 			}()
 			applied = out != nil
@@ -837,6 +900,9 @@ func history(s sink.Sink, em *childrun.Emitter, rng *rand.Rand, sample bool) int
 		sub, err := a.M.OpenSubChannel(a.chM, init, 10)
 		a.M.Timeout, a.V.Timeout = 30*time.Second, 30*time.Second
 		a.w.Bus.SetRewriter(a.M.Wire, nil)
+		a.mu.Lock()
+		a.propEdit, a.craftedFA = nil, nil
+		a.mu.Unlock()
 		if !fired() {
 			s.Inconclusive("funding update was not observed on the adversary's link")
 			abandoned = true
